@@ -160,11 +160,23 @@ def _evaluate_require(ast, file_path, package_lua, lua_path=None):
             # first require() the Lua interpreter encounters.)
 
             if not use_game_loop:
-                reqd_lua.root.stats[:] = [
-                    s for s in reqd_lua.root.stats
-                    if not isinstance(s, parser.StatFunction) or
-                    s.funcname.namepath[0].value not in GAME_LOOP_FUNCTION_NAMES]  # noqa: E501
-                reqd_lua.reparse(writer_cls=lua.LuaASTEchoWriter)
+                # Take the tokens of the game loop functions out of the token
+                # stream (a space stays in their place), then lex and parse
+                # what is left. Spaces and comments in front of a function
+                # are kept.
+                tokens = list(reqd_lua.tokens)
+                for s in reversed(reqd_lua.root.stats):
+                    if (isinstance(s, parser.StatFunction) and
+                            s.funcname.namepath[0].value in GAME_LOOP_FUNCTION_NAMES):  # noqa: E501
+                        start = s.start_pos
+                        while isinstance(tokens[start], (lexer.TokSpace,
+                                                         lexer.TokNewline,
+                                                         lexer.TokComment)):
+                            start += 1
+                        tokens[start:s.end_pos] = [lexer.TokSpace(b' ')]
+                reqd_lua = lua.Lua.from_lines(
+                    lua.LuaEchoWriter(tokens=tokens, root=None).to_lines(),
+                    version=game.DEFAULT_VERSION)
 
             package_lua[require_path] = reqd_lua
             _evaluate_require(reqd_lua, reqd_filepath,
